@@ -46,10 +46,12 @@ def showCode (c : Code) : String :=
 
 def parseInt (s : String) : Option Int := s.toInt?
 
-/-- encoding token: p plain, o other (ignored) encoding, g gzip, x x-gzip,
+/-- encoding token: p plain, o other (ignored) encoding, s / k plain through a real HTTP
+    server (Content-Length / chunked framing), g gzip, x x-gzip,
     h gzip with an unreadable header, e gzip with an empty body -/
 def parseEnc : String → Option (Bool × Option RErr)
   | "p" => some (false, none) | "o" => some (false, none)
+  | "s" => some (false, none) | "k" => some (false, none)
   | "g" => some (true, none) | "x" => some (true, none)
   | "h" => some (true, some .gzHeader) | "e" => some (true, some .eof)
   | _ => none
